@@ -359,6 +359,210 @@ def all_parameters_renamed_factory(source_texts):
     return apply
 
 
+def string_constants_hoisted(text: str) -> str:
+    """every string literal that is a call argument, a comparand, a subscript key or an element of a list / tuple /
+    set display and occurs at least twice in the module becomes a module-level constant ``_K_<n>``"""
+    tree = ast.parse(text)
+    skip = set()
+    for node in ast.walk(tree):
+        if isinstance(node, ast.JoinedStr):
+            skip.update(id(sub) for sub in ast.walk(node))
+        if isinstance(node, (ast.FunctionDef, ast.AsyncFunctionDef, ast.ClassDef, ast.Module)) and node.body and isinstance(node.body[0], ast.Expr):
+            skip.add(id(node.body[0].value))
+        if isinstance(node, (ast.FunctionDef, ast.AsyncFunctionDef)):
+            for deco in node.decorator_list:
+                skip.update(id(sub) for sub in ast.walk(deco))
+            for arg in node.args.posonlyargs + node.args.args + node.args.kwonlyargs:
+                if arg.annotation is not None:
+                    skip.update(id(sub) for sub in ast.walk(arg.annotation))
+            if node.returns is not None:
+                skip.update(id(sub) for sub in ast.walk(node.returns))
+        if isinstance(node, ast.AnnAssign):
+            skip.update(id(sub) for sub in ast.walk(node.annotation))
+        if isinstance(node, ast.Call) and isinstance(node.func, ast.Name) and node.func.id in ("cast", "TypeVar", "NewType"):
+            skip.update(id(sub) for sub in ast.walk(node))
+        if isinstance(node, ast.Assign) and any(isinstance(t, ast.Name) and t.id == "__all__" for t in node.targets):
+            skip.update(id(sub) for sub in ast.walk(node))
+        if isinstance(node, (ast.Match,)) if hasattr(ast, "Match") else False:
+            skip.update(id(sub) for sub in ast.walk(node))
+    candidates = []
+    for node in ast.walk(tree):
+        holders = []
+        if isinstance(node, ast.Call):
+            holders = list(node.args) + [k.value for k in node.keywords]
+        elif isinstance(node, ast.Compare):
+            holders = [node.left] + list(node.comparators)
+        elif isinstance(node, (ast.List, ast.Tuple, ast.Set)) and isinstance(getattr(node, "ctx", ast.Load()), ast.Load):
+            holders = list(node.elts)
+        elif isinstance(node, ast.Subscript):
+            holders = [node.slice]
+        for holder in holders:
+            if isinstance(holder, ast.Constant) and isinstance(holder.value, str) and id(holder) not in skip:
+                candidates.append(holder)
+    counts = {}
+    for node in candidates:
+        counts[node.value] = counts.get(node.value, 0) + 1
+    names = {value: f"_K_{index}" for index, value in enumerate(sorted(v for v, c in counts.items() if c >= 2))}
+    if not names:
+        return ast.unparse(tree)
+    chosen = {id(node) for node in candidates if node.value in names}
+
+    class Hoist(ast.NodeTransformer):
+        def visit_Constant(self, node: ast.Constant) -> ast.AST:
+            if id(node) in chosen:
+                return ast.copy_location(ast.Name(id=names[node.value], ctx=ast.Load()), node)
+            return node
+
+    tree = Hoist().visit(tree)
+    position = 0
+    for index, stmt in enumerate(tree.body):
+        if isinstance(stmt, (ast.Import, ast.ImportFrom)) or (index == 0 and isinstance(stmt, ast.Expr)):
+            position = index + 1
+    tree.body[position:position] = [ast.Assign(targets=[ast.Name(id=name, ctx=ast.Store())], value=ast.Constant(value=value)) for value, name in sorted(names.items(), key=lambda item: item[1])]
+    ast.fix_missing_locations(tree)
+    return ast.unparse(tree)
+
+
+def class_constants_hoisted(text: str) -> str:
+    """inside every top-level class, a string literal used twice or more by its methods (as a call argument, a comparand,
+    a subscript key or an element of a display) becomes a private class constant read as ``Class.__K_<n>``"""
+    tree = ast.parse(text)
+    for klass in [n for n in tree.body if isinstance(n, ast.ClassDef)]:
+        base_text = " ".join(ast.unparse(b) for b in klass.bases)
+        if klass.decorator_list or any(word in base_text for word in ("Enum", "NamedTuple", "TypedDict", "Protocol")):
+            continue
+        methods = [n for n in klass.body if isinstance(n, (ast.FunctionDef, ast.AsyncFunctionDef))]
+        candidates = []
+        for method in methods:
+            skip = set()
+            for deco in method.decorator_list:
+                skip.update(id(sub) for sub in ast.walk(deco))
+            for default in method.args.defaults + [d for d in method.args.kw_defaults if d is not None]:
+                skip.update(id(sub) for sub in ast.walk(default))
+            todo = list(method.body)
+            while todo:
+                node = todo.pop()
+                if isinstance(node, (ast.ClassDef, ast.JoinedStr)):
+                    continue
+                if isinstance(node, (ast.FunctionDef, ast.AsyncFunctionDef, ast.Lambda)):
+                    pass
+                holders = []
+                if isinstance(node, ast.Call) and not (isinstance(node.func, ast.Name) and node.func.id in ("cast", "TypeVar")):
+                    holders = list(node.args) + [k.value for k in node.keywords]
+                elif isinstance(node, ast.Compare):
+                    holders = [node.left] + list(node.comparators)
+                elif isinstance(node, (ast.List, ast.Tuple, ast.Set)) and isinstance(getattr(node, "ctx", ast.Load()), ast.Load):
+                    holders = list(node.elts)
+                elif isinstance(node, ast.Subscript):
+                    holders = [node.slice]
+                for holder in holders:
+                    if isinstance(holder, ast.Constant) and isinstance(holder.value, str) and id(holder) not in skip:
+                        candidates.append(holder)
+                if isinstance(node, ast.AnnAssign):
+                    todo.extend([node.value] if node.value is not None else [])
+                    continue
+                if isinstance(node, (ast.FunctionDef, ast.AsyncFunctionDef)):
+                    todo.extend(node.body)
+                    continue
+                todo.extend(ast.iter_child_nodes(node))
+        counts = {}
+        for node in candidates:
+            counts[node.value] = counts.get(node.value, 0) + 1
+        names = {value: f"__K_{index}" for index, value in enumerate(sorted(v for v, c in counts.items() if c >= 2))}
+        if not names:
+            continue
+        chosen = {id(node) for node in candidates if node.value in names}
+        class_name = klass.name
+
+        class Hoist(ast.NodeTransformer):
+            def visit_Constant(self, node: ast.Constant) -> ast.AST:
+                if id(node) in chosen:
+                    return ast.copy_location(ast.Attribute(value=ast.Name(id=class_name, ctx=ast.Load()), attr=names[node.value], ctx=ast.Load()), node)
+                return node
+
+        for method in methods:
+            Hoist().visit(method)
+        position = 1 if klass.body and isinstance(klass.body[0], ast.Expr) and isinstance(klass.body[0].value, ast.Constant) else 0
+        klass.body[position:position] = [ast.Assign(targets=[ast.Name(id=name, ctx=ast.Store())], value=ast.Constant(value=value)) for value, name in sorted(names.items(), key=lambda item: item[1])]
+    ast.fix_missing_locations(tree)
+    return ast.unparse(tree)
+
+
+class ExpandTernary(ast.NodeTransformer):
+    """``x = a if c else b`` -> ``if c: x = a`` / ``else: x = b``; ``return a if c else b`` -> two returns"""
+
+    def _expand(self, node, build):
+        value = node.value
+        if isinstance(value, ast.IfExp):
+            return ast.If(test=value.test, body=[build(value.body)], orelse=[build(value.orelse)])
+        return node
+
+    def visit_Assign(self, node: ast.Assign) -> ast.AST:
+        if len(node.targets) == 1 and isinstance(node.targets[0], (ast.Name, ast.Attribute)):
+            return self._expand(node, lambda v: ast.Assign(targets=node.targets, value=v))
+        return node
+
+    def visit_Return(self, node: ast.Return) -> ast.AST:
+        return self._expand(node, lambda v: ast.Return(value=v)) if node.value is not None else node
+
+    def visit_ClassDef(self, node: ast.ClassDef) -> ast.AST:
+        node.body = [self.visit(stmt) if isinstance(stmt, (ast.FunctionDef, ast.AsyncFunctionDef)) else stmt for stmt in node.body]
+        return node
+
+    def visit_Module(self, node: ast.Module) -> ast.AST:
+        node.body = [self.visit(stmt) if isinstance(stmt, (ast.FunctionDef, ast.AsyncFunctionDef, ast.ClassDef)) else stmt for stmt in node.body]
+        return node
+
+
+class ModernTyping(ast.NodeTransformer):
+    """annotations only: ``Optional[X]`` -> ``X | None``, ``Union[A, B]`` -> ``A | B``, ``List/Dict/Set/Tuple`` ->
+    ``list/dict/set/tuple`` (the modules get ``from __future__ import annotations``)"""
+
+    BUILTIN = {"List": "list", "Dict": "dict", "Set": "set", "Tuple": "tuple", "FrozenSet": "frozenset", "Type": "type"}
+
+    def _modern(self, node: ast.AST) -> ast.AST:
+        outer = self
+
+        class Inner(ast.NodeTransformer):
+            def visit_Subscript(self, sub: ast.Subscript) -> ast.AST:
+                self.generic_visit(sub)
+                if isinstance(sub.value, ast.Name):
+                    if sub.value.id == "Optional":
+                        return ast.BinOp(left=sub.slice, op=ast.BitOr(), right=ast.Constant(value=None))
+                    if sub.value.id == "Union" and isinstance(sub.slice, ast.Tuple) and sub.slice.elts:
+                        joined = sub.slice.elts[0]
+                        for element in sub.slice.elts[1:]:
+                            joined = ast.BinOp(left=joined, op=ast.BitOr(), right=element)
+                        return joined
+                    if sub.value.id in outer.BUILTIN:
+                        sub.value = ast.Name(id=outer.BUILTIN[sub.value.id], ctx=ast.Load())
+                return sub
+
+            def visit_Constant(self, sub: ast.Constant) -> ast.AST:
+                return sub  # string annotations are left alone
+
+        return Inner().visit(node)
+
+    def visit_FunctionDef(self, node: ast.FunctionDef) -> ast.AST:
+        self.generic_visit(node)
+        for arg in node.args.posonlyargs + node.args.args + node.args.kwonlyargs + [a for a in (node.args.vararg, node.args.kwarg) if a]:
+            if arg.annotation is not None:
+                arg.annotation = self._modern(arg.annotation)
+        if node.returns is not None:
+            node.returns = self._modern(node.returns)
+        return node
+
+    def visit_AnnAssign(self, node: ast.AnnAssign) -> ast.AST:
+        node.annotation = self._modern(node.annotation)
+        return node
+
+    def visit_Module(self, node: ast.Module) -> ast.AST:
+        self.generic_visit(node)
+        position = 1 if node.body and isinstance(node.body[0], ast.Expr) and isinstance(node.body[0].value, ast.Constant) else 0
+        node.body.insert(position, ast.ImportFrom(module="__future__", names=[ast.alias(name="annotations")], level=0))
+        return node
+
+
 def _by_transformer(transformer_class):
     def apply(text: str) -> str:
         tree = transformer_class().visit(ast.parse(text))
@@ -379,6 +583,10 @@ TRANSFORMS = {
     "condtemp": ("every if-test first stored in a local", _by_transformer(ConditionThroughLocal)),
     "nest": ("every 'if a and b' without else split into nested ifs", _by_transformer(NestConjunctions)),
     "continue": ("every loop body that is one if-block turned into 'if not c: continue'", _by_transformer(LoopContinue)),
+    "ternary": ("every conditional expression that is assigned or returned expanded into if/else", _by_transformer(ExpandTernary)),
+    "typing": ("every annotation modernised: X | None, A | B, list[...], dict[...]", _by_transformer(ModernTyping)),
+    "strconst": ("every string literal used twice or more in a module hoisted into a module-level constant", string_constants_hoisted),
+    "clsconst": ("every string literal used twice or more by the methods of a class hoisted into a private class constant", class_constants_hoisted),
     "params": ("every parameter of a private function that is never passed by keyword renamed", None),
     "params2": ("every parameter of every uniquely named function renamed, keywords at its call sites included", None),
 }
